@@ -205,20 +205,10 @@ Proof.
     apply bytes_ok_cons. split; [blia|]. apply bytes_ok_app. split; [assumption|apply IH; assumption].
 Qed.
 
-(* The query for the root name (no labels) is rejected by DecodeQuestion: recorded finding dnsq-root-name *)
-Definition known_C03_dns_root_name (ls : list bytes) : bool := match ls with [] => true | _ => false end.
-
-Lemma dnsquery_root_refuted :
-  exists p, encode_dns_query 1 256 (wire_of_labels []) 1 = Ok p /\
-            known_C03_dns_root_name [] = true /\
-            dns_decode_question p = Err EParseFrame /\
-            ref_dns_query (view p) <> None.
-Proof. eexists. split; [vm_compute; reflexivity|]. split; [reflexivity|]. split; [vm_compute; reflexivity|vm_compute; discriminate]. Qed.
-
-Theorem dnsquery_rt_partial id fl ls qt :
+(* the root name (no labels) is included since repo commit 8b21b8e (DecodeQuestion index+5) *)
+Theorem dnsquery_rt id fl ls qt :
   id < 65536 -> fl < 65536 -> qt < 65536 -> labels_ok ls -> Forall bytes_ok ls ->
   (length (wire_of_labels ls) <= 255)%nat ->
-  known_C03_dns_root_name ls = false ->
   let name := wire_of_labels ls in
   exists p,
     encode_dns_query id fl name qt = Ok p /\
@@ -231,11 +221,8 @@ Theorem dnsquery_rt_partial id fl ls qt :
       Some {| rq_id := id; rq_flags := fl; rq_qd := 1; rq_an := 0; rq_ns := 0; rq_ar := 0;
               rq_labels := ls; rq_type := qt; rq_class := 1; rq_trailing := [] |}.
 Proof.
-  intros Hid Hfl Hqt Hok Hb H255 Hk name. subst name. set (name := wire_of_labels ls) in *.
-  assert (Hne : (3 <= length name)%nat).
-  { destruct ls as [|l ls]; [discriminate|]. unfold name. cbn [wire_of_labels length]. rewrite app_length.
-    unfold labels_ok in Hok. apply Forall_cons_iff in Hok. destruct Hok as [Hl _]. unfold label_ok in Hl.
-    pose proof (wire_length_pos ls). blia. }
+  intros Hid Hfl Hqt Hok Hb H255 name. subst name. set (name := wire_of_labels ls) in *.
+  assert (Hne : (1 <= length name)%nat) by apply wire_length_pos.
   set (n := length name) in *.
   eexists. split. { apply encode_dns_query_bytes. fold n. blia. }
   fold n.
@@ -275,7 +262,7 @@ Proof.
     unfold dns_decode_question, dns_qdcount.
     rewrite (Hw 4%nat 0 1) by (try reflexivity; blia). cbn [bind].
     change (be16 0 1 =? 1) with true. cbn [negb]. cbn iota. cbn [len].
-    destruct (Nat.ltb_spec (16 + n) (12 + 6)) as [C|_]; [blia|].
+    destruct (Nat.ltb_spec (16 + n) (12 + 5)) as [C|_]; [blia|].
     pose proof (dns_labels_walk ls a (dns_hdr id fl) post [] (S (16 + n)) (16 + n)%nat 12%nat Ha Hok) as W.
     change (length (dns_hdr id fl)) with 12%nat in W. fold name n in W.
     rewrite W by (pose proof (wire_length_ge ls); unfold n, name in *; cbn [dns_hdr length] in *; blia).
@@ -301,9 +288,14 @@ Qed.
 
 Example dnsquery_rt_ex :
   let ls := [[119;119;119]; [101;120;97;109;112;108;101]; [99;111;109]] in
-  labels_ok ls /\ known_C03_dns_root_name ls = false /\ (length (wire_of_labels ls) <= 255)%nat /\
+  labels_ok ls /\ (length (wire_of_labels ls) <= 255)%nat /\
   exists p, encode_dns_query 4660 256 (wire_of_labels ls) 1 = Ok p /\ len p = 33%nat.
 Proof.
-  cbn zeta. split. { repeat constructor; cbn; lia. } split; [reflexivity|]. split; [cbn; lia|].
+  cbn zeta. split. { repeat constructor; cbn; lia. } split; [cbn; lia|].
   eexists. split; [vm_compute; reflexivity|reflexivity].
 Qed.
+
+Example dnsquery_root_ex :
+  exists p, encode_dns_query 1 256 (wire_of_labels []) 1 = Ok p /\ len p = 17%nat /\
+            (q <- dns_decode_question p ;; Ok (q_labels q, q_type q, q_class q, q_end q))%res = Ok ([], 1, 1, 17%nat).
+Proof. eexists. split; [vm_compute; reflexivity|]. split; [reflexivity|vm_compute; reflexivity]. Qed.
